@@ -10,7 +10,7 @@
 From Coq Require Import List String Bool Arith.
 From Helm Require Import Common.Assoc Engine.Types Engine.Eff Engine.Ops Engine.Cluster Engine.Seq
   Engine.SeqProofs Engine.HooksProofsGate Engine.ContainLedger Engine.ContainProofs Engine.ContainDeployed
-  Engine.Contain Engine.ContainRefuted Engine.ContainStore.
+  Engine.Contain Engine.ContainRefuted Engine.ContainStore Engine.HooksProofsTrace Engine.ContainReported.
 Import ListNotations.
 Local Open Scope string_scope.
 
@@ -57,6 +57,19 @@ Theorem C03_get_swallowed_refuted :
     amem "ConfigMap/b" (w_objs w) = true.
 Proof. exact get_swallowed_refuted. Qed.
 Print Assumptions C03_get_swallowed_refuted.
+
+(* C03_cluster_error_is_reported — "the operation returns an error": in EVERY execution of
+   install / upgrade / rollback / uninstall (every flag combination, every cluster
+   behaviour, storage fault and crash point), if an ownership check, a creation, an update,
+   a readiness wait or a hook watch fails ([has_failure tr]: the trace holds KExisting = None,
+   KCreate = false, KUpdate = (false, _), KWait = false or KHookWatch = false), the outcome
+   is not success.  Deletions are deliberately not in the list: K7 above, and the ignored
+   errors of the hook-failed and clean-up deletions. *)
+Theorem C03_cluster_error_is_reported :
+  forall rn ns o tr out,
+    exec (op_prog rn ns o) tr out -> has_failure tr = true -> out <> OOk.
+Proof. exact cluster_error_reported. Qed.
+Print Assumptions C03_cluster_error_is_reported.
 
 (* C03_previous_stays_deployed — after a failed non-atomic install or upgrade the revision
    that was deployed before (the highest one marked deployed) is still stored, unchanged,
@@ -114,3 +127,13 @@ Example C03_rollback_hook_failure_recorded :
             statuses (w_led w) = [(1, SSuperseded); (2, SDeployed); (3, SFailed)].
 Proof. exact rollback_hook_failure_recorded. Qed.
 Print Assumptions C03_rollback_hook_failure_recorded.
+
+(* Known finding K9 — the atomic clauses need "the recovery's own hooks do not fail":
+   install --atomic of a chart whose hook hx runs on pre-install and pre-delete and is never
+   deleted; CREATE a rejected: the automatic uninstall cannot create hx again and aborts,
+   leaving history 1:uninstalling. *)
+Theorem C03_atomic_recovery_hook_refuted :
+  exists h w, final h = Some (w, OErr EOtherErr) /\
+              statuses (w_led w) = [(1, SUninstalling)] /\ amem "ConfigMap/hx" (w_objs w) = true.
+Proof. exact atomic_recovery_hook_refuted. Qed.
+Print Assumptions C03_atomic_recovery_hook_refuted.
